@@ -5,6 +5,8 @@ import (
 	"encoding/json"
 	"fmt"
 	"math/rand"
+	"net/http"
+	"net/http/httptest"
 	"reflect"
 	"sort"
 	"strings"
@@ -98,8 +100,9 @@ func argsType(r *rand.Rand) reflect.Type {
 // ---- schema fixture --------------------------------------------------------
 
 type fixture struct {
-	schema *graphql.Schema
-	argsT  reflect.Type
+	schema  *graphql.Schema
+	argsT   reflect.Type
+	handler http.Handler // one graphql.HTTPHandler per fixture, shared by all HTTP requests of the case
 
 	mu       sync.Mutex
 	calls    int
@@ -141,7 +144,67 @@ func newFixture(argsT reflect.Type, variant int) (*fixture, error) {
 		return nil, err
 	}
 	fx.schema = built
+	fx.handler = graphql.HTTPHandler(built)
 	return fx, nil
+}
+
+type httpOutcome struct {
+	errs     []string
+	hasData  bool
+	calls    int
+	captured []reflect.Value
+	raw      string
+	panicMsg string
+}
+
+// post sends one request to the fixture's HTTP handler, as a client would.
+func (fx *fixture) post(query, varsJSON string) (o httpOutcome) {
+	fx.mu.Lock()
+	fx.calls, fx.captured = 0, nil
+	fx.mu.Unlock()
+	defer func() {
+		if p := recover(); p != nil {
+			o.panicMsg = vlib.Trunc(fmt.Sprint(p), 400)
+		}
+		fx.mu.Lock()
+		o.calls, o.captured = fx.calls, fx.captured
+		fx.mu.Unlock()
+	}()
+	qj, _ := json.Marshal(query)
+	body := `{"query":` + string(qj) + `,"variables":` + varsJSON + `}`
+	req := httptest.NewRequest("POST", "/graphql", strings.NewReader(body))
+	rec := httptest.NewRecorder()
+	fx.handler.ServeHTTP(rec, req)
+	o.raw = vlib.Trunc(rec.Body.String(), 600)
+	var resp struct {
+		Data   interface{} `json:"data"`
+		Errors []string    `json:"errors"`
+	}
+	if err := json.Unmarshal(rec.Body.Bytes(), &resp); err != nil {
+		o.errs = []string{"<<unparsable response: " + err.Error() + ">>"}
+		return o
+	}
+	o.errs, o.hasData = resp.Errors, resp.Data != nil
+	return o
+}
+
+// renderHTTP writes the query of the HTTP leg: every argument of f is passed
+// through a nullable variable named like the argument, so the variables
+// object of a request is exactly the JSON form of the args value and left-out
+// arguments are undefined variables.
+func renderHTTP(r *rand.Rand, argsT reflect.Type, uses int) string {
+	var decls, args []string
+	for _, f := range fieldsOf(argsT) {
+		decls = append(decls, "$"+f.name+": "+gqlTypeName(f.typ))
+		args = append(args, f.name+": $"+f.name)
+	}
+	r.Shuffle(len(args), func(i, j int) { args[i], args[j] = args[j], args[i] })
+	op, on := "query", "Query"
+	if r.Intn(4) == 0 {
+		op, on = "mutation", "Mutation"
+	}
+	body, tail := selectionBody(r, "f("+strings.Join(args, ", ")+")", on, uses, map[string]int{})
+	return op + " Q(" + strings.Join(decls, ", ") + ") { " + body + " }" + tail
 }
 
 type outcome struct {
@@ -355,12 +418,60 @@ var transportNames = []string{"literal", "variable", "default_left_out", "defaul
 type request struct {
 	query, vars string
 	used        map[string]int
+	uses        int // number of selections of f in the query
+}
+
+// pickUses draws how many times the field is selected in one request.
+func pickUses(r *rand.Rand) int {
+	switch x := r.Intn(10); {
+	case x < 4:
+		return 1
+	case x < 8:
+		return 2
+	default:
+		return 3
+	}
+}
+
+// selectionBody writes `uses` selections of field (the same text, hence the
+// same variables, every time) under distinct aliases: directly, inside an
+// inline fragment, or inside one named fragment.
+func selectionBody(r *rand.Rand, field, on string, uses int, used map[string]int) (body, tail string) {
+	var direct, frag []string
+	for k := 0; k < uses; k++ {
+		sel := field
+		if uses > 1 {
+			sel = fmt.Sprintf("u%d: %s", k, field)
+		} else if r.Intn(8) == 0 {
+			sel = "renamed: " + field
+			used["shape:alias"]++
+		}
+		switch r.Intn(8) {
+		case 0:
+			direct = append(direct, "... on "+on+" { "+sel+" }")
+			used["shape:inline_fragment"]++
+		case 1:
+			frag = append(frag, sel)
+		default:
+			direct = append(direct, sel)
+		}
+	}
+	if len(frag) > 0 {
+		used["shape:named_fragment"]++
+		direct = append(direct, "...Fr")
+		tail = " fragment Fr on " + on + " { " + strings.Join(frag, " ") + " }"
+	}
+	if uses > 1 {
+		used[fmt.Sprintf("shape:uses_%d", uses)]++
+	}
+	r.Shuffle(len(direct), func(i, j int) { direct[i], direct[j] = direct[j], direct[i] })
+	return strings.Join(direct, " "), tail
 }
 
 // render builds the request that sends root (an object whose fields are the
 // arguments of f) through the given transport. names lists every argument of
 // the field so that left-out ones can also be written as undefined variables.
-func render(r *rand.Rand, root *wire, names []string, transport int) request {
+func render(r *rand.Rand, root *wire, names []string, transport, uses int) request {
 	b := newBinder(r)
 	var args []string
 	present := map[string]bool{}
@@ -413,19 +524,7 @@ func render(r *rand.Rand, root *wire, names []string, transport int) request {
 	if r.Intn(4) == 0 {
 		op, on = "mutation", "Mutation"
 	}
-	body, tail := field, ""
-	switch r.Intn(8) {
-	case 0:
-		body = "renamed: " + field
-		b.used["shape:alias"]++
-	case 1:
-		body = "... on " + on + " { " + field + " }"
-		b.used["shape:inline_fragment"]++
-	case 2:
-		body = "...Fr"
-		tail = " fragment Fr on " + on + " { " + field + " }"
-		b.used["shape:named_fragment"]++
-	}
+	body, tail := selectionBody(r, field, on, uses, b.used)
 	if op == "mutation" {
 		b.used["shape:mutation"]++
 	}
@@ -438,7 +537,7 @@ func render(r *rand.Rand, root *wire, names []string, transport int) request {
 	default:
 		q = op + " Q { " + body + " }" + tail
 	}
-	return request{query: q, vars: "{" + strings.Join(b.vars, ",") + "}", used: b.used}
+	return request{query: q, vars: "{" + strings.Join(b.vars, ",") + "}", used: b.used, uses: uses}
 }
 
 // ---- negative mutations ----------------------------------------------------
@@ -591,8 +690,10 @@ func TestCheck(t *testing.T) {
 	run.Rule("case = args struct shape (predeclared input structs or reflect.StructOf with 1-4 fields; field types from the grammar T ::= scalar of every width | named scalar | enum (int32/string/uint8 kinds) | []byte | time.Time | TextUnmarshaler (struct, array) | named input object (incl. recursive, all-optional, skipped fields) | []T | *T, plus `graphql:\"name\"`, `,optional`, `-` tags) " +
 		"x one generated value (ints within the type's range and +-2^53 with boundary bias, float32/float64 finite values written in shortest round-trip decimal, strings with quotes/backslashes/control characters/non-BMP runes, RFC3339 second-precision times with Z or +-hh:mm zones, base64 bytes; optional positions left out / explicitly null / given; null list entries) " +
 		"x transports {literal, variable, default with variable left out, default with variable null, value supplied next to a different default, literal containing nested variables (all modes)}; nodes that need `null` go by variable because the pinned parser has no null literal. " +
+		"Every request selects the field 1-3 times (distinct aliases, directly / in an inline fragment / in a named fragment) with the same argument text, so variables and defaults are used several times; every selection must receive the value. " +
 		"Each case also sends one invalid request (required field missing / undefined variable / null, or one node replaced by a value of another JSON kind among number,string,bool,list,object) through one random transport. " +
 		"Oracle: every transport's captured args == the generated Go value (nil and empty slices not told apart, times compared as instant+offset), resolver called exactly once; invalid requests: Parse or PrepareQuery returns a graphql.SanitizedError and the resolver is not called. " +
+		"HTTP leg: one graphql.HTTPHandler per case receives a sequence of POSTs with ONE query text (all arguments through variables): the value; then in random order the same again, a wrong-kind twin (one node replaced by a value of another JSON kind that fmt prints identically: 21/\"21\", true/\"true\", list or object/its printed string), a same-look twin (a different valid value that prints identically: neighbouring strings merged or split, null/\"<nil>\", two string fields folded into one) whose expected value comes from the reference decoder, and an invalid request; valid ones must arrive as sent, invalid ones must come back with errors and no resolver call. " +
 		"Non-trivial = at least 2 of {list, nested input object, pointer/optional tag, named scalar/enum/bytes/time/text, a default transport carried a value}; distinct = args type signature + mutation class.")
 	run.Assume("graphql-go's lexer/parser (third party) reads GraphQL literals as written by gqlQuote / strconv")
 	run.Assume("variables reach graphql.Parse as json.Unmarshal output (map[string]interface{} with float64 numbers), as in graphql/http.go and graphql/server.go")
@@ -640,7 +741,8 @@ func oneCase(run *vlib.Run, i int) {
 	// positive: all transports carry the same value
 	defaultUsed := false
 	for tr := 0; tr < nTransports; tr++ {
-		req := render(run.Rand(fmt.Sprintf("render%d", tr), i), root, names, tr)
+		rr := run.Rand(fmt.Sprintf("render%d", tr), i)
+		req := render(rr, root, names, tr, pickUses(rr))
 		o := fx.exec(req.query, req.vars, r.Intn(2) == 0)
 		name := transportNames[tr]
 		run.Count("transport_runs:"+name, 1)
@@ -655,13 +757,16 @@ func oneCase(run *vlib.Run, i int) {
 			run.Violation(i, "", wit(req, name, map[string]interface{}{"what": "panic on a valid request", "stage": o.stage, "panic": o.panicMsg}))
 		case o.stage != "done":
 			run.Violation(i, "", wit(req, name, map[string]interface{}{"what": "valid request rejected", "stage": o.stage, "error": o.err.Error()}))
-		case o.calls != 1:
-			run.Violation(i, "", wit(req, name, map[string]interface{}{"what": "resolver not called exactly once", "calls": o.calls}))
+		case o.calls != req.uses:
+			run.Violation(i, "", wit(req, name, map[string]interface{}{"what": "resolver not called exactly once per selection", "calls": o.calls, "selections": req.uses}))
 		default:
-			if d := eqValue(o.captured[0], want, "args"); d != "" {
-				run.Violation(i, "", wit(req, name, map[string]interface{}{
-					"what": "resolver received a different value than was sent", "diff": d,
-					"received": vlib.Trunc(show(o.captured[0]), 3000)}))
+			for _, c := range o.captured {
+				if d := eqValue(c, want, "args"); d != "" {
+					run.Violation(i, "", wit(req, name, map[string]interface{}{
+						"what": "resolver received a different value than was sent", "diff": d, "selections": req.uses,
+						"received": vlib.Trunc(show(c), 3000)}))
+					break
+				}
 			}
 		}
 		if tr == tMixed && run.WantSample() && featureCount(feats, defaultUsed) >= 3 {
@@ -680,7 +785,7 @@ func oneCase(run *vlib.Run, i int) {
 			mclass = class[:k]
 		}
 		tr := nr.Intn(nTransports)
-		req := render(nr, neg, names, tr)
+		req := render(nr, neg, names, tr, pickUses(nr))
 		o := fx.exec(req.query, req.vars, false)
 		name := transportNames[tr]
 		run.Count("negative:"+mclass, 1)
@@ -716,6 +821,8 @@ func oneCase(run *vlib.Run, i int) {
 		}
 	}
 
+	httpLeg(run, i, fx, argsT, root, want, typeSig)
+
 	var fl []string
 	for f := range feats {
 		fl = append(fl, f)
@@ -741,6 +848,87 @@ func markNested(w *wire, feats map[string]bool) {
 	case kList:
 		for _, e := range w.list {
 			markNested(e, feats)
+		}
+	}
+}
+
+// httpLeg sends a sequence of requests with one query text to the fixture's
+// single graphql.HTTPHandler: the generated value first, then (in random
+// order) the same request again, a wrong-kind twin and a same-look twin of
+// its variables (values that fmt prints identically), and an invalid request
+// from mutate. Every request must be answered from its own variables.
+func httpLeg(run *vlib.Run, i int, fx *fixture, argsT reflect.Type, root *wire, want reflect.Value, typeSig string) {
+	r := run.Rand("http", i)
+	if mv, err := decode(root, argsT, false); err != nil {
+		run.Broken(fmt.Sprintf("case %d: reference decoder rejects the generated value: %v", i, err))
+		return
+	} else if d := eqValue(mv, want, "args"); d != "" {
+		run.Broken(fmt.Sprintf("case %d: reference decoder disagrees with the generator: %s", i, d))
+		return
+	}
+	uses := pickUses(r)
+	query := renderHTTP(r, argsT, uses)
+	type step struct {
+		kind   string
+		vars   string
+		expect reflect.Value // valid => the value that must arrive
+		valid  bool
+	}
+	first := step{"sent", root.json(), want, true}
+	var rest []step
+	rest = append(rest, step{"sent_again", root.json(), want, true})
+	if tw, class, ok := wrongKindTwin(r, root, argsT); ok {
+		rest = append(rest, step{class, tw.json(), reflect.Value{}, false})
+		run.Count("http_twin:"+class, 1)
+	}
+	if tw, v, class, ok := sameLookTwin(r, root, argsT); ok {
+		rest = append(rest, step{class, tw.json(), v, true})
+		run.Count("http_twin:"+class, 1)
+	}
+	neg := root.clone()
+	if class, ok := mutate(r, neg); ok {
+		if _, err := decode(neg, argsT, false); err != nil {
+			rest = append(rest, step{"invalid:" + class[:strings.Index(class, ":")], neg.json(), reflect.Value{}, false})
+		}
+	}
+	r.Shuffle(len(rest), func(a, b int) { rest[a], rest[b] = rest[b], rest[a] })
+	if r.Intn(4) == 0 && len(rest) > 0 {
+		// sometimes a later request comes first (failed requests must not
+		// influence later ones either)
+		rest = append(rest, rest[0])
+	}
+	var history []map[string]interface{}
+	for _, st := range append([]step{first}, rest...) {
+		o := fx.post(query, st.vars)
+		history = append(history, map[string]interface{}{"kind": st.kind, "variables": vlib.Trunc(st.vars, 1500), "valid": st.valid, "response": o.raw, "resolver_calls": o.calls})
+		run.Count("http_requests", 1)
+		wit := func(what string, extra map[string]interface{}) map[string]interface{} {
+			w := map[string]interface{}{"what": what, "transport": "http", "args_type": typeSig, "query": query,
+				"selections": uses, "request": st.kind, "history_on_one_handler": history}
+			for k, v := range extra {
+				w[k] = v
+			}
+			return w
+		}
+		switch {
+		case o.panicMsg != "":
+			run.Violation(i, "", wit("panic in the HTTP handler", map[string]interface{}{"panic": o.panicMsg}))
+		case st.valid && len(o.errs) > 0:
+			run.Violation(i, "", wit("valid request rejected", map[string]interface{}{"errors": o.errs}))
+		case st.valid && o.calls != uses:
+			run.Violation(i, "", wit("resolver not called exactly once per selection", map[string]interface{}{"calls": o.calls}))
+		case st.valid:
+			for _, c := range o.captured {
+				if d := eqValue(c, st.expect, "args"); d != "" {
+					run.Violation(i, "", wit("resolver received a different value than was sent", map[string]interface{}{
+						"diff": d, "sent_go_value": vlib.Trunc(show(st.expect), 3000), "received": vlib.Trunc(show(c), 3000)}))
+					break
+				}
+			}
+		case len(o.errs) == 0 || o.calls != 0:
+			run.Violation(i, "", wit("invalid request was not rejected before execution", map[string]interface{}{"calls": o.calls, "errors": o.errs}))
+		default:
+			run.Count("http_rejected", 1)
 		}
 	}
 }
